@@ -32,7 +32,7 @@ def gen_case(rng):
     what = rng.choice(WHAT)
     nd = rng.randint(1, 4)
     dt = 'f' if what == 'dropna' else rng.choice('ffi')
-    sp = gen.spec(rng, ndim=nd, dtype=dt, orders=None, maxsize=4)
+    sp = gen.spec(rng, ndim=nd, dtype=dt, orders=None, maxsize=4, narrow=True)
     pat = 'none'
     v = sp["values"]
     if dt == 'f':
